@@ -165,6 +165,26 @@ PROPS = {
    partial="no-panic theorem over all streams x targets (stack-discipline invariant of the six stacks) not yet proved; "
            "writes outside the target cannot be exhibited by the model (memory safety of unsafe offsets is a runtime fact: "
            "covered by the unf-type descriptor comparison and Go's checkptr in the race run only)"),
+ "C15": dict(P("DESIGN.md 7 C15",
+   "Lean 4 proof (ownership discipline: owned stores are stable under every disciplined history; both halves necessary) tied by regenerated SSA facts about every by-reference consumer and every zero-copy conversion + differential ops with buffer scribbling, GC stress and checkptr",
+   "owned_store_stable: with a consumer that copies by-reference strings, after ANY history obeying the producer discipline "
+   "(no region is overwritten once a by-value string into it was handed out) every stored string reads exactly as delivered "
+   "(induction over histories); view_consumer_unstable / undisciplined_producer_unstable: both rules are necessary. Tie, "
+   "static (regenerated on every run, SF/GenCheck): refConsumersCopy - every OnStringRef/OnKeyRef of gotype ignores, forwards, "
+   "copies (string(v)), interns through the key cache, or (struct unfolder) only looks up; unsafeSitesKnown - the complete "
+   "table of zero-copy []byte<->string conversions and what their results are used for. Tie, dynamic: op `alias` (parser of "
+   "each format [Write per chunk | pull decoder over a reader with buffer sizes 1..4096] feeding one Unfolder into "
+   "interface{} / map / slice targets, key cache on/off; EVERY input buffer overwritten as soon as Write/Read returns; the "
+   "same parser and unfolder continue with a second document into a second target; garbage churn + GC; optional continuous "
+   "GC; value of target 1 before/after compared with a control run), op `aliasrec` (a Visitor keeping every by-value string "
+   "and key), and the op stream again under go build -race (race detector + checkptr instrumentation).",
+   "Kernel-checked ownership discipline over all histories; adherence of the code: regenerated facts + scribble/GC/checkptr runs (partial by nature).",
+   tb=["abstract region model SF/Props/C15.lean (no mirror of Go's allocator or GC)", "facts: SF/Gen/RefMethods.lean, SF/Gen/UnsafeSites.lean (x/tools SSA)",
+       "Go race detector / checkptr instrumentation (cgo build)"],
+   assumptions=["a region model of memory; Go strings are immutable views", "the guard `allocated` of json/parse.go stepString/stepDictKey is tested, not proved",
+                "GC interaction and pointer validity are runtime facts sampled by the GC-stress and checkptr runs"],
+   partial="memory aliasing, GC and pointer validity cannot be exhibited by an executable Lean model; the theorem covers the ownership discipline, the runs sample the rest"),
+   race=True, race_ops_quick=300),
  "C16": P("DESIGN.md 7 C16",
    "Lean 4 proof (encoder: success iff no Write failed; parser: a visitor error at event k is returned and is the last event, for every input, chunking and fault index) + exhaustive fault-index correspondence",
    "encoder_reports_write_errors: with a writer failing from its k-th call on, the CBOR encoder reports success iff no "
